@@ -30,25 +30,33 @@ def judge_only(m, ienvs, rng):
             if x is True and y is not True: return f"only{sorted(sub)} = {r} is false where the marker holds"
     return None
 
+def leaf_on(rng, v):
+    """one clause about variable v: a leaf, or a disjunction of two leaves on v (still a single-variable clause)"""
+    def one():
+        if v == "python_version": return f'python_version {rng.choice(["<", "<=", ">", ">=", "==", "!="])} {MI.q(rng, rng.choice(["3.6", "3.7", "3.8", "3.9", "3.10", "3.12"]))}'
+        if v == "platform_release": return f'platform_release {rng.choice(["<", "<=", ">", ">=", "==", "!="])} {MI.q(rng, rng.choice(["5.10", "5.10.0", "21.6.0", "10", "6.0"]))}'
+        if v == "extra": return f'extra {rng.choice(["==", "!="])} {MI.q(rng, rng.choice(["a", "b", "c", "A", "a_b", "internal"]))}'
+        vals = MI.STRVARS[v]; m = rng.random()
+        if m < 0.6: return f'{v} {rng.choice(["==", "!="])} {MI.q(rng, rng.choice(vals))}'
+        return f'{v} {rng.choice(["in", "not in"])} {MI.q(rng, rng.choice([" ", ", "]).join(rng.sample(vals, 2)))}'
+    if rng.random() < 0.3:
+        a, b = one(), one()
+        if a != b: return f"({a} or {b})"
+    return one()
+
 def judge_exclude(rng, ienvs):
-    """conjunction of single-variable clauses: exclude(v) is the conjunction of the others"""
-    from poetry.core.version.markers import parse_marker
-    leaves = {}
-    for _ in range(rng.randint(2, 4)):
-        s, kind = MI.gen_leaf(rng)
-        v = re.search(r"(python_full_version|python_version|platform_release|sys_platform|os_name|platform_machine|platform_system|platform_python_implementation|implementation_name|extra|sys\.platform|os\.name|platform\.machine|python_implementation)", s).group(1)
-        v = {"sys.platform": "sys_platform", "os.name": "os_name", "platform.machine": "platform_machine", "python_implementation": "platform_python_implementation"}.get(v, v)
-        if v in ("python_version", "python_full_version"): v = "py"     # merged by the simplifier: treat as one variable
-        leaves.setdefault(v, s)
-    if len(leaves) < 2 or "py" in leaves: return None, None
-    text = " and ".join(leaves.values())
+    """conjunction of single-variable clauses (a leaf or a disjunction over one variable each): exclude(v) is the conjunction of the others"""
+    names = rng.sample(["python_version", "platform_release", "extra"] + list(MI.STRVARS), rng.randint(2, 4))
+    clauses = {v: leaf_on(rng, v) for v in names}
+    text = " and ".join(clauses.values())
     m = K.parse(text)
     if m is None or isinstance(m, Exception): return None, text
-    for v in leaves:
+    for v in clauses:
         r = K.capped(lambda: m.exclude(v))
         if r is None: continue
         if isinstance(r, Exception): return f"exclude({v}) raised {type(r).__name__}", text
-        others = K.parse(" and ".join(s for k, s in leaves.items() if k != v))
+        others = K.parse(" and ".join(s for k, s in clauses.items() if k != v))
+        if others is None or isinstance(others, Exception): continue
         if K.truth(r, ienvs) != K.truth(others, ienvs): return f"exclude({v}) = {r} is not the conjunction of the other clauses", text
         if v in names_in(r): return f"exclude({v}) = {r} still mentions {v}", text
     return None, text
